@@ -60,9 +60,13 @@ class _TooLong(Exception):
 
 
 class _Rec:
-    """what the selector did with the objects it was given"""
+    """what the selector did with the objects it was given (during the call being judged)"""
 
     def __init__(self, preds, k_init_eff):
+        self.reset(preds, k_init_eff)
+
+    def reset(self, preds, k_init_eff):
+        """start recording a new select() call on the same loss / aggregator / RandomState objects"""
         self.ids = {id(p): i for i, p in enumerate(preds)}
         self.k0 = k_init_eff
         self.member_loss = {}
@@ -73,6 +77,7 @@ class _Rec:
         self.bags = []
         self._T = None
         self._pending = None
+        self._keep = preds  # keeps the ids valid
 
 
 def _make_env(task, preds, k_init_eff):
@@ -167,14 +172,17 @@ def build(task):
     return y, [_arr(p["loc"], (S, C), p.get("mask")) for p in task["preds"]]
 
 
-def gen_task(rng, n):
-    kind = rng.choice(["reg", "reg", "cls"])
+def gen_task(rng, n, like=None):
+    """`like`: another task whose kind / aggregator / loss the new one must share (same selector object)"""
+    kind = like["kind"] if like else rng.choice(["reg", "reg", "cls"])
     S = rng.choice([1, 2, 3, 4, 6])
     masked = rng.random() < 0.4
     task = {"kind": kind, "S": S, "masked": masked}
     if kind == "reg":
         task["agg"], task["loss"] = rng.choice([("mean", "se"), ("mean", "se"), ("mean", "ae"), ("normal", "se"),
                                                 ("normal", "nll")])
+        if like:
+            task["agg"], task["loss"] = like["agg"], like["loss"]
         task["y"] = [rng.randint(-16, 16) / 8 for _ in range(S)]
         noise = rng.choice([1, 4, 16])
         pool = []
@@ -192,6 +200,8 @@ def gen_task(rng, n):
         C = rng.choice([2, 3, 4])
         task["C"] = C
         task["agg"], task["loss"] = rng.choice([("cat", "zo"), ("cat", "cce"), ("cat", "cce")])
+        if like:
+            task["agg"], task["loss"] = like["agg"], like["loss"]
         task["y"] = [rng.randrange(C) for _ in range(S)]
         task["preds"] = []
         for _ in range(n):
@@ -213,6 +223,14 @@ def gen_task(rng, n):
             if all(mk):
                 mk[rng.randrange(S)] = False
             p["mask"] = mk
+    return task
+
+
+def gen_with_history(rng, n):
+    """a task to be selected on a selector object that already served 1..3 other select() calls
+    (other candidate sets: different sizes, plain / masked)"""
+    task = gen_task(rng, n)
+    task["history"] = [gen_task(rng, rng.choice([1, 2, 3, 4, 6, 9]), like=task) for _ in range(rng.randint(1, 3))]
     return task
 
 
@@ -243,6 +261,14 @@ def run_greedy(task, opts, via_online=False):
     res.update(rec=rec, inner_agg=inner_agg, inner_loss=inner_loss)
     kw = {k: opts[k] for k in GREEDY_DEFAULTS}
     sel = GreedySelector(loss, agg, random_state=RS(opts.get("seed", 0)), **kw)
+    for h in task.get("history") or []:  # earlier select() calls on the same selector object
+        hy, hp = build(h)
+        rec.reset(hp, min(opts["k_init"], len(hp)))
+        try:
+            sel.select(hy, hp)
+        except Exception:  # noqa: BLE001 - an earlier call that failed / was cut off is part of the history too
+            pass
+    rec.reset(preds, min(opts["k_init"], n))
     try:
         idx, w = sel.select(y, preds)
     except _TooLong:
@@ -316,11 +342,29 @@ def _gfp(clause, task, opts, n, full=False):
         nd, cls = ["early_stopping=False", "with_replacement=True", "max_it=-1"], []
     elif full and task.get("masked"):
         cls.append("masked")
+    if task.get("history") and clause not in ("no-worse-than-start", "terminates"):
+        cls.append("reused-selector")
+    elif task.get("history") and (opts["early_stopping"] or (clause == "terminates" and (not opts["with_replacement"] or opts["max_it"] >= 0))):
+        cls.append("reused-selector")
     return f"C20|{clause}|GreedySelector.select|{','.join(nd + cls)}"
 
 
 def greedy_oracle(task, opts, res):
     """-> list of (clause, detail)"""
+    n = len(res["preds"])
+    pre = []
+    if task.get("history") and not opts["bagging"] and not res.get("_fresh"):
+        # the same call on a fresh selector (bagging: the random stream legitimately continues across calls)
+        fresh = run_greedy(dict(task, history=None), opts)
+        same = fresh["outcome"] == res["outcome"] and (res["outcome"] != "ok" or (
+            list(fresh["indices"]) == list(res["indices"]) and list(fresh["weights"]) == list(res["weights"])))
+        if not same:
+            pre = [("reuse-independent", f"reused selector: {res['outcome']} {res.get('indices')} {res.get('weights')}; "
+                                         f"fresh selector: {fresh['outcome']} {fresh.get('indices')} {fresh.get('weights')}")]
+    return pre + _greedy_oracle(task, opts, res)
+
+
+def _greedy_oracle(task, opts, res):
     n = len(res["preds"])
     if res["outcome"] == "exc":
         return [("never-fails", res["exc"])]
@@ -364,6 +408,20 @@ def shrink_greedy(task, opts, clause):
             return False
 
     task, opts = copy.deepcopy(task), dict(opts)
+    if task.get("history"):
+        t2 = copy.deepcopy(task)
+        t2.pop("history")
+        if fails(t2, opts):
+            task = t2
+        else:
+            i = 0
+            while len(task["history"]) > 1 and i < len(task["history"]):
+                t2 = copy.deepcopy(task)
+                del t2["history"][i]
+                if fails(t2, opts):
+                    task = t2
+                else:
+                    i += 1
     for _ in range(2):  # masks, options, candidates, then once more on the smaller candidate set
         if task.get("masked"):
             t2 = copy.deepcopy(task)
@@ -396,16 +454,34 @@ def run_topk(task, k):
 
     y, preds = build(task)
     rec, _, loss, _, _, _ = _make_env(task, preds, 0)
+    sel = TopKSelector(loss, k=k)
+    for h in task.get("history") or []:
+        hy, hp = build(h)
+        rec.reset(hp, 0)
+        try:
+            sel.select(hy, hp)
+        except Exception:  # noqa: BLE001
+            pass
+    rec.reset(preds, 0)
     try:
-        idx, w = TopKSelector(loss, k=k).select(y, preds)
+        idx, w = sel.select(y, preds)
     except Exception as e:  # noqa: BLE001
         return {"outcome": "exc", "exc": f"{type(e).__name__}: {str(e)[:160]}", "rec": rec, "n": len(preds)}
     return {"outcome": "ok", "indices": idx, "weights": w, "rec": rec, "n": len(preds)}
 
 
-def topk_oracle(res, k):
+def topk_oracle(res, k, task=None):
+    pre = []
+    if task is not None and task.get("history"):
+        fresh = run_topk(dict(task, history=None), k)
+        if (fresh["outcome"], fresh.get("indices"), fresh.get("weights")) != (res["outcome"], res.get("indices"), res.get("weights")):
+            pre = [("reuse-independent", f"reused selector: {res.get('indices')}; fresh selector: {fresh.get('indices')}")]
     if res["outcome"] == "exc":
-        return [("never-fails", res["exc"])]
+        return pre + [("never-fails", res["exc"])]
+    return pre + _topk_oracle(res, k)
+
+
+def _topk_oracle(res, k):
     n, idx = res["n"], res["indices"]
     losses = [res["rec"].member_loss[i] for i in range(n)]
     fails = []
@@ -493,6 +569,8 @@ def _greedy_case(ck, d, task, opts, label="greedy", res=None, verbose=False):
     ck.case(case, nontrivial=nontriv)
     ck.count(f"{label}:outcome:{res['outcome']}")
     ck.count(f"{label}:n={n}")
+    if task.get("history"):
+        ck.count(f"{label}:reused-selector:earlier-calls={len(task['history'])}")
     ck.count(f"{label}:iterations={min(len(res['rec'].blocks), 6)}{'+' if len(res['rec'].blocks) > 6 else ''}")
     ck.count(f"{label}:{task['agg']}/{task['loss']}{'/masked' if task.get('masked') else ''}")
     for k_ in ("with_replacement", "early_stopping", "bagging"):
@@ -556,11 +634,12 @@ def _topk_case(ck, d, task, k, verbose=False):
                 ck.mismatch(case, dis)
 
         d.ask({"op": "topk", "losses": [rat(v) for v in losses], "order": [int(i) for i in np.argsort(losses)], "k": k}, on_reply)
-    fails = topk_oracle(res, k)
+    fails = topk_oracle(res, k, task)
     if verbose:
         print("replay:", {"impl": {k_: res.get(k_) for k_ in ("outcome", "exc", "indices", "weights")}, "oracle": fails or "holds"})
     for clause, detail in fails:
-        ck.fail(f"C20|{clause}|TopKSelector.select|" + ("candidates=1" if n == 1 else "candidates<k" if n < k else ""),
+        ck.fail(f"C20|{clause}|TopKSelector.select|" + ("candidates=1" if n == 1 else "candidates<k" if n < k else "")
+                + (",reused-selector" if clause == "reuse-independent" else ""),
                 f"TopKSelector: {clause} fails", case, detail)
 
 
@@ -678,7 +757,8 @@ def run(ck):
     ck.rule = ("generated: 1..12 candidates x (k, k_init, max_it, eps_tol, with_replacement, early_stopping, bagging) x "
                "regression (mean/normal aggregator; squared/absolute/NLL loss) and classification (categorical/mode aggregator; "
                "0-1/cross-entropy loss) x plain/row-masked predictions, duplicate candidates for ties; TopK with k below/above n; "
-               "OnlineSelector fed job by job (failed jobs interleaved); EnsemblePredictor with every finish order of <=4 (quick) / "
+               "histories: one TopK / Greedy selector object serving 2..4 select() calls on different candidate sets, the last judged "
+               "like a call on a fresh selector; OnlineSelector fed job by job (failed jobs interleaved); EnsemblePredictor with every finish order of <=4 (quick) / "
                "<=5 (thorough) members; non-trivial = >=2 candidates and at least one greedy iteration / k<n / completion out of order")
     ck.assumptions = [
         "loss function and aggregator are environment: the model's aggregated loss is an arbitrary function of the multiset of members "
@@ -708,6 +788,13 @@ def run(ck):
         for _ in range(ck.pick(200, 4000)):
             n = rng.choice([1, 2, 3, 4, 5, 6, 8, 10, 12])
             _topk_case(ck, d, gen_task(rng, n), rng.choice([1, 1, 2, 3, 5, 5, 8, 14]))
+        # histories: one selector object serving several select() calls (TopK / Greedy keep no state by contract)
+        for _ in range(ck.pick(150, 2500)):
+            n = rng.choice([1, 2, 3, 4, 5, 6, 8, 12])
+            _greedy_case(ck, d, gen_with_history(rng, n), gen_opts(rng, n))
+        for _ in range(ck.pick(60, 800)):
+            n = rng.choice([1, 2, 3, 5, 8, 12])
+            _topk_case(ck, d, gen_with_history(rng, n), rng.choice([1, 2, 3, 5, 8]))
         for _ in range(ck.pick(40, 600)):
             n = rng.choice([1, 2, 3, 4, 5, 6, 8])
             task = gen_task(rng, n)
